@@ -177,6 +177,143 @@ def ex_float(case):
     return r
 
 
+# ------------------------------------------------------------------------------ shared futures under several combinators
+def fanin_strategy(tier):
+    def tree(nleaf, depth):
+        leaf = st.integers(0, nleaf - 1)
+        if depth <= 0:
+            return leaf
+        sub = st.one_of(leaf, leaf, tree(nleaf, depth - 1))
+        return st.one_of(leaf, st.tuples(st.sampled_from(["any", "all"]), st.lists(sub, min_size=2, max_size=3)).map(list))
+
+    @st.composite
+    def case(draw):
+        nleaf = draw(st.integers(2, 5))
+        resolves = draw(st.lists(st.tuples(st.integers(0, nleaf - 1), st.one_of(st.integers(0, 9), st.none())).map(list), max_size=8))
+        waiters = draw(st.lists(st.fixed_dictionaries({"start": st.integers(0, 9), "tree": tree(nleaf, 2)}), min_size=1, max_size=6))
+        return {"nleaf": nleaf, "resolves": resolves, "waiters": waiters}
+    return case()
+
+
+def _model_fanin(tree, t0, leaf_res):
+    """-> (resolution tick or None, set of acceptable values as canonical tuples). Leaves resolve at integer ticks, waiters build
+    their combinator at t0 (a half tick), so an input is either already resolved at construction or resolves strictly later."""
+    INF = None
+    if isinstance(tree, int):
+        if tree not in leaf_res:
+            return INF, set()
+        t, v = leaf_res[tree]
+        return max(t, t0), {_n(v)}
+    op, subs = tree
+    parts = [_model_fanin(sub, t0, leaf_res) for sub in subs]
+    if op == "any":
+        times = [t for t, _ in parts if t is not None]
+        if not times:
+            return INF, set()
+        r = min(times)
+        vals = set()
+        for i, (t, vs) in enumerate(parts):
+            if t == r:                      # several inputs settled at construction or in one instant: any of them may be reported
+                vals |= {(i, v) for v in vs}
+        return r, vals
+    if any(t is None for t, _ in parts):
+        return INF, set()
+    import itertools
+    combos = set(itertools.islice(itertools.product(*[sorted(vs, key=repr) for _, vs in parts]), 512))
+    return max(t for t, _ in parts), {tuple(c) for c in combos}
+
+
+def ex_fanin(case):
+    from happysimulator import Entity, Event, Instant, Simulation
+    from happysimulator.core.sim_future import SimFuture, all_of, any_of
+    r = Result()
+    nleaf = max(2, case["nleaf"])
+    futs = [SimFuture() for _ in range(nleaf)]
+    direct = set()
+    resumes = {}
+
+    def build(tree):
+        if isinstance(tree, int):
+            return futs[tree % nleaf]
+        op, subs = tree
+        ins = [build(x) for x in subs]
+        if len(ins) < 2:
+            ins = ins + ins
+        return any_of(*ins) if op == "any" else all_of(*ins)
+
+    def norm(tree):
+        if isinstance(tree, int):
+            return tree % nleaf
+        op, subs = tree
+        subs = [norm(x) for x in subs]
+        return [op, subs if len(subs) >= 2 else subs + subs]
+
+    class Waiter(Entity):
+        def __init__(self, i, tree):
+            super().__init__(f"w{i}")
+            self.i, self.tree = i, tree
+
+        def handle_event(self, event):
+            v = yield build(self.tree)
+            resumes.setdefault(self.i, []).append((self.now.nanoseconds, _n(v if not isinstance(v, (list, tuple)) else _tup(v))))
+
+    class Resolver(Entity):
+        def handle_event(self, event):
+            futs[event.context["leaf"]].resolve(event.context["val"])
+
+    waiters = []
+    for i, w in enumerate(case["waiters"]):
+        t = norm(w["tree"])
+        if isinstance(t, int):
+            if t in direct:              # a SimFuture may be yielded directly by one process only (documented)
+                t = ["all", [t, t]]
+            else:
+                direct.add(t)
+        waiters.append(Waiter(i, t))
+    res = Resolver("resolver")
+    sim = Simulation(entities=waiters + [res])
+    leaf_res = {}
+    for k, (leaf, val) in enumerate(case["resolves"]):
+        leaf %= nleaf
+        tick = k + 1                                          # one resolve per integer tick
+        leaf_res.setdefault(leaf, (tick * TICK, val))          # only the first resolve of a leaf counts
+        sim.schedule(Event(time=Instant(tick * TICK), event_type="res", target=res, context={"leaf": leaf, "val": val}))
+    starts = []
+    for i, w in enumerate(case["waiters"]):
+        t0 = w["start"] * TICK + TICK // 2
+        starts.append(t0)
+        sim.schedule(Event(time=Instant(t0), event_type="go", target=waiters[i]))
+    # keep the run alive to the end so that late (wrong) resumptions are seen
+    sim.schedule(Event(time=Instant(40 * TICK), event_type="res", target=res, context={"leaf": 0, "val": 0}))
+    leaf_res.setdefault(0, (40 * TICK, 0))
+    sim.run()
+    shared = False
+    for i, w in enumerate(waiters):
+        want_t, want_vals = _model_fanin(w.tree, starts[i], leaf_res)
+        got = resumes.get(i, [])
+        if len(got) > 1:
+            r.add(f"{P}/fanin/resumed-more-than-once", f"waiter {i} tree {w.tree}: {got}")
+        elif want_t is None:
+            if got:
+                r.add(f"{P}/fanin/resumed-although-unresolved", f"waiter {i} tree {w.tree}: {got}")
+        elif not got:
+            r.add(f"{P}/fanin/never-resumed", f"waiter {i} tree {w.tree} built at {starts[i]}: should resume at {want_t} with one of {sorted(want_vals, key=repr)[:3]}")
+        elif got[0][0] != want_t:
+            r.add(f"{P}/fanin/resumed-at-wrong-instant", f"waiter {i} tree {w.tree} built at {starts[i]}: resumed at {got[0][0]}, expected {want_t}")
+        elif got[0][1] not in want_vals:
+            r.add(f"{P}/fanin/wrong-value", f"waiter {i} tree {w.tree}: received {got[0][1]!r}, expected one of {sorted(want_vals, key=repr)[:3]}")
+    leaves_of = lambda t: {t} if isinstance(t, int) else set().union(*[leaves_of(x) for x in t[1]])
+    used = [leaves_of(w.tree) for w in waiters]
+    shared = any(used[a] & used[b] for a in range(len(used)) for b in range(a + 1, len(used)))
+    r.nontrivial = shared and len(resumes) >= 2
+    r.labels += [l for l, c in (("shared-leaf", shared), ("some-never-resolve", len(resumes) < len(waiters))) if c]
+    return r
+
+
+def _tup(v):
+    return tuple(_tup(x) if isinstance(x, (list, tuple)) else x for x in v)
+
+
 RULE = ("generated programs whose handlers are generators built from yield delay / yield delay,[events] / yield future / "
         "yield any_of|all_of trees / yield from (depth<=3), futures resolved by other handlers before, at and after the wait, "
         "double resolves, completion hooks on parked processes, hooks attached late (by the running process to its own event or to another pending / in-flight event); non-trivial = the reference run shows at least one of: future "
@@ -187,6 +324,12 @@ OBLIGATIONS = [
     Obligation("proc", case_strategy(False), execute_factory("proc"), {"quick": 2000, "thorough": 120000}, RULE),
     Obligation("futures", case_strategy(True), execute_factory("futures"), {"quick": 2000, "thorough": 120000},
                "same generator biased towards futures and combinators (>=2 futures, no past-stamped emits); same rule"),
+    Obligation("fanin", fanin_strategy, ex_fanin, {"quick": 2000, "thorough": 100000},
+               "2-5 leaf futures shared by up to 6 waiter processes, each waiting on its own any_of/all_of tree (depth <= 3, repeated leaves) "
+               "built at a generated half tick; leaves are resolved one per integer tick (double resolves, None values, some never); a small "
+               "model of the combinator semantics gives every waiter's resumption instant and the set of acceptable values (several inputs "
+               "settled at construction: any of them); independent of the order in which one resolve wakes several waiters; non-trivial = "
+               "two waiters share a leaf and at least two waiters resumed"),
     Obligation("float", float_strategy, ex_float, {"quick": 1200, "thorough": 60000},
                "one process yielding arbitrary finite float delays (0, sub-microsecond, fractions, up to 1e6 s) with and without "
                "side-effect events; resume offset must be floor/ceil of the exact delay in ns and side-effect events are delivered "
